@@ -46,11 +46,11 @@ theorem earlyFind_gstep (e : Env) (bl : List Line) (rs : List Range) (st : St) (
   exact key2 rs st (GStep.refl h)
 
 theorem equalizePair_gstep (e : Env) (hw : WF e) (st : St) (d : Dev) (h : Sem e st d) (a b : Line)
-    (ha : ∀ g ∈ a.refs, g ∈ D0 e) :
+    (ha : ∀ g ∈ a.refs, g ∈ D0 e) (hb : ∀ g ∈ b.refs, g ∈ BNames e) :
     ∃ d', GStep e st d (equalizePair e st a b).1 d' ∧
       ((equalizePair e st a b).2 = true → PairGood e (equalizePair e st a b).1 d' a b) := by
   unfold equalizePair PairGood
-  have key : ∀ (l : List (Name × Name)) (s : St × Bool) (ds : Dev), (∀ p ∈ l, p.1 ∈ D0 e) → GStep e st d s.1 ds →
+  have key : ∀ (l : List (Name × Name)) (s : St × Bool) (ds : Dev), (∀ p ∈ l, p.1 ∈ D0 e ∧ p.2 ∈ BNames e) → GStep e st d s.1 ds →
       ∀ (done : List (Name × Name)), (s.2 = true → ∀ p ∈ done, GoodFrozen e s.1 ds p.1 p.2) →
       ∃ d', GStep e st d (l.foldl (fun (s : St × Bool) p =>
           let (st', ok) := equalizedGroups e s.1 p.1 p.2
@@ -66,7 +66,8 @@ theorem equalizePair_gstep (e : Env) (hw : WF e) (st : St) (d : Dev) (h : Sem e 
     | cons p ps ih =>
       intro s ds hp hs done hd
       simp only [List.foldl_cons]
-      obtain ⟨d1, g1, r1⟩ := equalizedGroups_gstep e hw s.1 ds hs.sem p.1 p.2 (hp p List.mem_cons_self)
+      obtain ⟨d1, g1, r1⟩ := equalizedGroups_gstep e hw s.1 ds hs.sem p.1 p.2 (hp p List.mem_cons_self).1
+        (hp p List.mem_cons_self).2
       generalize hq : equalizedGroups e s.1 p.1 p.2 = q at g1 r1
       obtain ⟨st1, ok⟩ := q
       simp only at g1 r1 ⊢
@@ -87,7 +88,8 @@ theorem equalizePair_gstep (e : Env) (hw : WF e) (st : St) (d : Dev) (h : Sem e 
       intro hok x hx
       apply r2 hok x
       simpa using hx
-  obtain ⟨d', g, r⟩ := key (a.refs.zip b.refs) (st, true) d (fun p hp => ha p.1 (List.of_mem_zip hp).1)
+  obtain ⟨d', g, r⟩ := key (a.refs.zip b.refs) (st, true) d
+    (fun p hp => ⟨ha p.1 (List.of_mem_zip hp).1, hb p.2 (List.of_mem_zip hp).2⟩)
     (GStep.refl h) [] (fun _ _ hp => by simp at hp)
   exact ⟨d', g, fun hok p hp => r hok p (by simpa using hp)⟩
 
@@ -103,7 +105,8 @@ theorem KeepGood.astep {e : Env} {st st' : St} {d d' : Dev} {al bl : List Line} 
     (h : KeepGood e st d al bl cells) (g : AStep e st d st' d' aN) : KeepGood e st' d' al bl cells :=
   fun ai bi hm p hp => (h ai bi hm p hp).astep g
 
-theorem equalizeRange_gstep (e : Env) (hw : WF e) (hA : RefsClosedA e) (aN : Name) (bl : List Line) (lowA lowB : Nat) :
+theorem equalizeRange_gstep (e : Env) (hw : WF e) (hA : RefsClosedA e) (aN : Name) (bl : List Line)
+    (hbl : ∀ bi, ∀ g ∈ (bl.getD bi default).refs, g ∈ BNames e) (lowA lowB : Nat) :
     ∀ (n : Nat) (st : St) (acc : List MCell) (d : Dev), Sem e st d → KeepGood e st d (e.aLines aN) bl acc →
     ∃ d', GStep e st d (equalizeRange e (e.aLines aN) bl lowA lowB n st acc).1 d' ∧
       KeepGood e (equalizeRange e (e.aLines aN) bl lowA lowB n st acc).1 d' (e.aLines aN) bl
@@ -119,7 +122,7 @@ theorem equalizeRange_gstep (e : Env) (hw : WF e) (hA : RefsClosedA e) (aN : Nam
     obtain ⟨st1, acc1⟩ := r
     simp only at g1 k1 ⊢
     obtain ⟨d2, g2, r2⟩ := equalizePair_gstep e hw st1 d1 g1.sem ((e.aLines aN).getD (lowA + n) default)
-      (bl.getD (lowB + n) default) (aLines_getD_refs e hA aN _)
+      (bl.getD (lowB + n) default) (aLines_getD_refs e hA aN _) (hbl _)
     generalize equalizePair e st1 ((e.aLines aN).getD (lowA + n) default) (bl.getD (lowB + n) default) = q at g2 r2
     obtain ⟨st2, ok⟩ := q
     simp only at g2 r2
@@ -140,7 +143,8 @@ theorem equalizeRange_gstep (e : Env) (hw : WF e) (hA : RefsClosedA e) (aN : Nam
       · exact (k1.gstep g2) ai bi hm
       · simp at hm
 
-theorem cellsPhase_gstep (e : Env) (hw : WF e) (hA : RefsClosedA e) (aN : Name) (bl : List Line) :
+theorem cellsPhase_gstep (e : Env) (hw : WF e) (hA : RefsClosedA e) (aN : Name) (bl : List Line)
+    (hbl : ∀ bi, ∀ g ∈ (bl.getD bi default).refs, g ∈ BNames e) :
     ∀ (rs : List Range) (st : St) (acc : List MCell) (d : Dev), Sem e st d → KeepGood e st d (e.aLines aN) bl acc →
     ∃ d', GStep e st d (cellsPhase e (e.aLines aN) bl rs st acc).1 d' ∧
       KeepGood e (cellsPhase e (e.aLines aN) bl rs st acc).1 d' (e.aLines aN) bl (cellsPhase e (e.aLines aN) bl rs st acc).2 := by
@@ -167,7 +171,7 @@ theorem cellsPhase_gstep (e : Env) (hw : WF e) (hA : RefsClosedA e) (aN : Name) 
           obtain ⟨i, _, rfl⟩ := List.mem_map.mp hc
           simp))
       · split
-        · obtain ⟨d1, g1, k1⟩ := equalizeRange_gstep e hw hA aN bl r.lowA r.lowB (r.highA - r.lowA) st acc d h hk
+        · obtain ⟨d1, g1, k1⟩ := equalizeRange_gstep e hw hA aN bl hbl r.lowA r.lowB (r.highA - r.lowA) st acc d h hk
           generalize equalizeRange e (e.aLines aN) bl r.lowA r.lowB (r.highA - r.lowA) st acc = q at g1 k1
           obtain ⟨st1, acc1⟩ := q
           simp only at g1 k1 ⊢
